@@ -81,6 +81,23 @@ def step (s : St) : Evt → St
 
 def run (s : St) (evs : List Evt) : St := evs.foldl step s
 
+/-- **What C28 demands, read off the history** (independent of how the handlers work): the ids
+that must be reported down at the end — the workloads recorded on an existing node at the moment
+its heartbeat disappeared under an active watcher, or found lapsed (non-test node) when the
+watcher started, and not reported up again by their agent since.  NOT included (and not marked by
+the code): workloads created on the node after its lapse was handled, lapses of `Test` nodes found
+by `initNodeStatus`, lapses while no watcher is active (until one starts). -/
+def obligations : List Evt → St → List Nat → List Nat
+  | [], _, ob => ob
+  | e :: rest, s, ob =>
+    let ob' := match e with
+      | .lapse n => if s.active && s.hb.contains n && nodeExists s n then ob ++ ((onNode s n).map (·.id)) else ob
+      | .startWatcher =>
+        ob ++ (s.nodes.filter fun nd => !nd.test && !s.hb.contains nd.name).flatMap fun nd => (onNode s nd.name).map (·.id)
+      | .report i => ob.filter (fun j => j != i)
+      | _ => ob
+    obligations rest (step s e) ob'
+
 /-- workloads that C28 requires to be reported down in state `s`: recorded on a node that has
 no heartbeat (the decidable clause evaluated on the implementation's reports) -/
 def stillUp (s : St) (n : String) : List Nat :=
